@@ -18,7 +18,7 @@ LEVEL = 'model_checking'
 TECHNIQUE = ('bounded exhaustive enumeration of item sequences x connective / keyword renderings on find_sec, PLSSDesc and Tract; '
              'reference model = concatenated Python ranges')
 LEVEL_TEXT = ('All sequences of up to 3 (quick) / 4 (thorough) items from a pool that forces overlaps, duplicates, descending and '
-              'degenerate ranges and 1-3 digit numbers, rendered with every combination of 7 through-spellings, 10 and-spellings, 9/6 '
+              'degenerate ranges and 1-3 digit numbers, rendered with every combination of 11 through-spellings, 12 and-spellings (incl. upper-case and capitalised words), 11/8 '
               'keywords, keyword repetition and zero padding for the shortest sequences and every combination of <= 2 (3) '
               'rendering deviations for longer ones, through three observers. Expansion bugs (off-by-one at either end, direction, lost reset of the '
               '"through" state, wrong end position) show with <= 3 items.')
@@ -30,13 +30,13 @@ RULE = (
     "whose expansion has >= 2 numbers."
 )
 ASSUMPTIONS = [
-    "sequences of more than 4 items and connective spellings outside the 7 + 10 listed are not explored",
+    "sequences of more than 4 items and connective spellings outside the 11 + 12 listed are not explored",
 ]
 
-THRU = [' - ', '-', ' through ', ' thru ', ' to ', '–', ' thru. ']
-AND = [', ', ' and ', ' & ', ', and ', ',', ';', ': ', '. ', ' / ', ', & ']
-KW = {'sec': ['Sec ', 'Section ', 'Secs ', 'Sections ', 'Sec. ', 'Secs. ', '§ ', 'Sec', 'Sect. '],
-      'lot': ['Lot ', 'Lots ', 'L', 'L. ', 'Lt ', 'Lot']}
+THRU = [' - ', '-', ' through ', ' thru ', ' to ', '–', ' thru. ', ' THROUGH ', ' Thru ', ' TO ', ' Through ']
+AND = [', ', ' and ', ' & ', ', and ', ',', ';', ': ', '. ', ' / ', ', & ', ' AND ', ', And ']
+KW = {'sec': ['Sec ', 'Section ', 'Secs ', 'Sections ', 'Sec. ', 'Secs. ', '§ ', 'Sec', 'Sect. ', 'SECTIONS ', 'sections '],
+      'lot': ['Lot ', 'Lots ', 'L', 'L. ', 'Lt ', 'Lot', 'LOTS ', 'lots ']}
 ITEMS = [('s', 3), ('s', 14), ('r', 1, 3), ('r', 9, 11), ('r', 5, 3), ('r', 12, 10), ('s', 7), ('r', 2, 2)]
 EXTRA = {'sec': [('s', 36), ('r', 98, 99), ('r', 36, 34), ('s', 1)],
          'lot': [('s', 100), ('r', 998, 999), ('r', 101, 99), ('s', 999)]}
